@@ -111,8 +111,8 @@ def compare_predictions(run: Run, progs: list[dict], traces: list[dict]) -> None
                         last_rt = None
                     cur = None
         os.remove(path)
-    run.cov["model_predictions_compared"] = compared
-    run.cov["model_predictions_drift"] = drift
+    run.cov["model_predictions_compared"] = run.cov.get("model_predictions_compared", 0) + compared
+    run.cov["model_predictions_drift"] = run.cov.get("model_predictions_drift", 0) + drift
     if drift:
         run.notes.append(f"DRIFT: {drift} of {compared} predictions of the design model differ from the code: the exhaustive "
                          "model-checking result is not transferable until Inverter.tla is brought in line")
